@@ -605,7 +605,7 @@ func (fr *Frame) invNames(li *loopInfo, st *State, phi map[*ssa.Phi]Value) map[s
 	// the converse rewrite: a counting loop `for i := 0; i < len(xs); i++` turned into `for i, x := range xs`.
 	// The key variable i is then defined inside the body as rangeindex+1; at the cut point it stands for the
 	// number of completed iterations, which is rangeindex+1 as well.
-	for b := range li.blocks {
+	for _, b := range sortedBlocks(li.blocks) {
 		for _, ins := range b.Instrs {
 			dr, ok := ins.(*ssa.DebugRef)
 			if !ok {
@@ -791,7 +791,7 @@ func (fr *Frame) buildCandidates(li *loopInfo, phiEntry map[*ssa.Phi]Value) []*C
 				}
 			}
 			// bounds from comparisons in the loop against loop-invariant values
-			for b := range li.blocks {
+			for _, b := range sortedBlocks(li.blocks) {
 				for _, in2 := range b.Instrs {
 					bo, ok := in2.(*ssa.BinOp)
 					if !ok {
@@ -1043,4 +1043,15 @@ func (u *Unit) havocMapObject(fr *Frame, st *State, pc Term, mt *types.Map, mref
 	}
 	ln := u.mapLen(st, mt, mref)
 	_ = ln
+}
+
+// sortedBlocks returns the blocks of a set in index order (candidate invariants are generated while walking them;
+// the text of the verification conditions must not depend on map iteration order).
+func sortedBlocks(m map[*ssa.BasicBlock]bool) []*ssa.BasicBlock {
+	out := make([]*ssa.BasicBlock, 0, len(m))
+	for b := range m {
+		out = append(out, b)
+	}
+	sort.Slice(out, func(i, j int) bool { return out[i].Index < out[j].Index })
+	return out
 }
